@@ -477,6 +477,26 @@ def search_zoo(ctx):
             if msg:
                 ctx.fail(dict(oracle='perturbation', kind=pert['kind']), f'[zoo:{name}] ' + msg, dict(kind='pert', cfg=cfg, pert=pert))
 
+    # always exercised: for every network CLASS of the zoo, the first base on that class (sir / sis diseases only) gets an independent
+    # extra disease listed FIRST, once inert (beta 0) and once transmitting with another beta than the base's: anything a route keeps
+    # per disease (a cache of per-edge betas, a shared buffer) must be keyed by the disease, whatever the order
+    seen = set()
+    for name, cfg in zoo.configs():
+        if not cfg.get('diseases') or any(isinstance(d.get('beta'), dict) or d['type'] not in ('sir', 'sis') for d in cfg['diseases']): continue
+        types = tuple(sorted(n['type'] for n in cfg.get('networks', [])))
+        if not types or types in seen or 'agepools' in types: continue
+        seen.add(types)
+        for beta in (0, 0.45):
+            pert = dict(kind='extra_disease', type='sis', name='aaa_first', beta=beta, first=True)
+            try:
+                msg = oracle(cfg, pert)
+            except Exception as e:
+                ctx.count('zoo_exceptions'); ctx.notes['last_zoo_exception'] = f'{name} + extra_disease first: {type(e).__name__}: {e}'; continue
+            ctx.count('zoo_runs'); ctx.count('zoo_netclass_extra_disease_first')
+            if msg:
+                ctx.fail(dict(oracle='perturbation', kind=pert['kind']), f'[zoo:{name}] ' + msg, dict(kind='pert', cfg=cfg, pert=pert))
+    ctx.notes['zoo_network_classes_with_extra_disease_first'] = sorted('+'.join(t) for t in seen)
+
 
 def replay(ctx, data):
     return oracle(data['cfg'], data['pert']) is not None
